@@ -1,6 +1,6 @@
 (* C08 — Scheduling requests are validated.  Statements only. *)
 Require Import NX.Base.Prelude NX.Base.ListX NX.Model.PQ NX.Model.Sim.
-Require Import NX.Proofs.SimBasic NX.Proofs.SimDriver NX.Proofs.SimQueue NX.Proofs.SimTop.
+Require Import NX.Proofs.SimBasic NX.Proofs.SimDriver NX.Proofs.SimQueue NX.Proofs.SimTop NX.Proofs.SimSched NX.Proofs.SimTerm NX.Proofs.SimComplete.
 
 (* The answer to a scheduling request of any kind (Scheduler::schedule_*event,
    Context::schedule_*event, Scheduler::schedule of a pre-built action with the
@@ -70,6 +70,28 @@ Theorem c08_run_keeps_invariant :
   forall b s l s', q_inv s -> net_step b s l = Some s' -> q_inv s'.
 Proof. exact net_step_inv. Qed.
 Print Assumptions c08_run_keeps_invariant.
+
+(* Every stepping call returns: from any state satisfying the two queue
+   invariants (established by init and kept by every command) no command ever
+   yields RHang - the critical section pulls each entry due now once, periods
+   being positive - and the invariants are kept. *)
+Theorem c08_step_returns :
+  forall b fuel s c ch s' r nd,
+    bugF4 b = false -> qwf s -> q_inv s -> exec_cmd b fuel s c ch = (s', r, nd) -> r <> RHang /\ qwf s'.
+Proof. exact exec_cmd_returns. Qed.
+Print Assumptions c08_step_returns.
+
+(* Never silently dropped: an entry that is in the queue when the critical
+   section of a step starts is, when it ends, still queued, or its key was
+   cancelled, or it has been fired (its op is in one of the spawned groups). *)
+Theorem c08_never_dropped :
+  forall fuel s q bound cur group groups q' gs,
+    pq_wf q -> q_from q (fst cur) -> (exists a0, pq_peek q = Some (cur, a0)) ->
+    crit fuel s q bound cur group groups = Some (q', gs) ->
+    forall y, In y (items q) ->
+      In y (items q') \/ key_cancelled s (akey (ival y)) = true \/ In (aop (ival y)) (concat gs).
+Proof. exact crit_complete. Qed.
+Print Assumptions c08_never_dropped.
 
 (* On the pinned tree (bugF4) a pre-built periodic action with a null period was
    accepted and the next step never returned: the model's critical section runs
